@@ -117,6 +117,22 @@ func Run(cs Case, c *vrt.Ctx) {
 	} else if (len(sel) == 1) != got {
 		c.Fail("match-vs-filter", "Script.Match", fmt.Sprintf("%s: Match=%v but the filter selects %d of 1", desc, got, len(sel)), "op:"+cs.Eq.Op)
 	}
+	// the same script read from its text (the parser orders operators by precedence and
+	// regroups what it read right-nested) evaluates like the one that was built
+	var parsed *jp.Script
+	var perr error
+	if pv, stack := vrt.Catch(func() { parsed, perr = jp.NewScript(s.String()) }); pv != nil {
+		c.Fail("panic", "NewScript", fmt.Sprintf("%v at %s; %s", pv, stack, desc), "op:"+cs.Eq.Op)
+	} else if perr != nil || parsed == nil {
+		c.Class("text-does-not-parse(C14)")
+	} else {
+		var pgot bool
+		if pv, stack := vrt.Catch(func() { pgot = parsed.Match(in) }); pv != nil {
+			c.Fail("panic", "Script.Match(parsed)", fmt.Sprintf("%v at %s; %s", pv, stack, desc), "op:"+cs.Eq.Op)
+		} else if pgot != got {
+			c.Fail("parsed-differs-from-built", "NewScript", fmt.Sprintf("%s: built %s gives %v, read from that text it prints as %s and gives %v", desc, s.String(), got, parsed.String(), pgot), "op:"+cs.Eq.Op)
+		}
+	}
 	// determinism
 	if again := s.Match(in); again != got {
 		c.Fail("nondeterministic", "Script.Match", fmt.Sprintf("%s: %v then %v", desc, got, again))
